@@ -20,6 +20,7 @@ func (m *consumptions) SendToAll(p Pack, keyframe bool) {
 	m.Range(func(key, value interface{}) bool {
 		c := value.(*consumption)
 		c.send(p, keyframe)
+		verifPoint("broadcast.sent", c)
 		return true
 	})
 }
